@@ -173,3 +173,40 @@ func H20n() {
 	reach("compared")
 	h20Same(rec.got, want, "stacked writers: output == one-shot rendering of everything the inner writer was handed")
 }
+
+// H20b3: as H20b with two fully accepted Write calls (cut at symbolic c1 <= c2) before the one
+// during which the underlying writer stops short - the line state the failing call starts from
+// was left by two calls, the first of which may have ended mid-line.
+func H20b3() {
+	n, p := param("n"), param("p")
+	prefix := h20Bytes(p)
+	text := h20Bytes(n)
+	c1 := symRange(0, n)
+	c2 := symRange(0, n)
+	assume(c1 <= c2)
+	model, payload := h20Model(prefix, text)
+	model2, _ := h20Model(prefix, text[:c2])
+	out2 := len(model2)
+	total := len(model)
+	budget := symRange(0, (p+1)*n)
+	assume(budget < total)
+	assume(out2 <= budget)
+	lw := &h20Lim{budget: budget}
+	w := NewWriter(lw, string(prefix))
+	n1, err1 := w.Write(append([]byte{}, text[:c1]...))
+	check(n1 == c1 && err1 == nil, "first chunk: full length, no error")
+	n2, err2 := w.Write(append([]byte{}, text[c1:c2]...))
+	check(n2 == c2-c1 && err2 == nil, "second chunk: full length, no error")
+	n3, err3 := w.Write(append([]byte{}, text[c2:]...))
+	reach("short-write")
+	check(err3 != nil, "short write reports an error")
+	want := 0
+	for i := out2; i < budget; i++ {
+		if payload[i] {
+			want++
+		}
+	}
+	check(n3 >= 0 && n3 <= len(text)-c2, "count is never negative and never more than the argument")
+	check(n3 == want, "count == number of caller bytes that reached the underlying writer")
+	h20Same(lw.got, model[:budget], "bytes that reached the writer are a prefix of the full rendering")
+}
